@@ -29,6 +29,31 @@ def _is_block_of(e: ast.AST, names: Set[str]) -> bool:
     return isinstance(e, ast.Name) and e.id in names
 
 
+def _matrix_blocks(resp: FuncInfo, params: Set[str]) -> Dict[str, ast.AST]:
+    """locals / attributes assigned from pure indexing of a parameter, two subscripts deep (rows, then columns).  A block
+    may be cut in two steps (Af = A[f, ...]; Afm = Af[..., m]): subscripts are counted through slice-derived names."""
+    blocks: Dict[str, ast.AST] = {}
+    depth: Dict[str, int] = {p: 0 for p in params}
+    changed = True
+    while changed:
+        changed = False
+        for n in ast.walk(resp.node):
+            if isinstance(n, ast.Assign) and isinstance(n.value, ast.Subscript):
+                e, k = n.value, 0
+                while isinstance(e, ast.Subscript):
+                    e, k = e.value, k + 1
+                if isinstance(e, ast.Name) and e.id in depth:
+                    for t in n.targets:
+                        if isinstance(t, (ast.Name, ast.Attribute)) and norm(t) not in params:
+                            d = depth[e.id] + k
+                            if depth.get(norm(t)) != d:
+                                depth[norm(t)] = d
+                                changed = True
+                            if d >= 2:
+                                blocks[norm(t)] = n.value
+    return blocks
+
+
 @rule("R-BLOCK-T", floor=2)
 def r_block_t(ctx: RuleCtx, col: Collector):
     """Partitioned linear-system modules: a sub-block obtained purely by indexing the input matrix must not be used
@@ -38,27 +63,7 @@ def r_block_t(ctx: RuleCtx, col: Collector):
     for c, resp in module_methods(ctx, "_response"):
         params = set(resp.pos_params())
         selfn = m.self_name(resp)
-        # blocks: locals / attributes assigned from pure indexing of a parameter (double subscript = a block)
-        blocks: Dict[str, ast.AST] = {}
-        # a block may be cut in two steps (Af = A[f, ...]; Afm = Af[..., m]): count subscripts through slice-derived names
-        depth: Dict[str, int] = {p: 0 for p in params}
-        changed = True
-        while changed:
-            changed = False
-            for n in ast.walk(resp.node):
-                if isinstance(n, ast.Assign) and isinstance(n.value, ast.Subscript):
-                    e, k = n.value, 0
-                    while isinstance(e, ast.Subscript):
-                        e, k = e.value, k + 1
-                    if isinstance(e, ast.Name) and e.id in depth:
-                        for t in n.targets:
-                            if isinstance(t, (ast.Name, ast.Attribute)) and norm(t) not in params:
-                                d = depth[e.id] + k
-                                if depth.get(norm(t)) != d:
-                                    depth[norm(t)] = d
-                                    changed = True
-                                if d >= 2:
-                                    blocks[norm(t)] = n.value
+        blocks = _matrix_blocks(resp, params)
         if not blocks:
             continue
         for b, src in sorted(blocks.items()):
@@ -87,13 +92,7 @@ def r_block_matmul(ctx: RuleCtx, col: Collector):
     m = ctx.model
     for c, resp in module_methods(ctx, "_response"):
         params = set(resp.pos_params())
-        blocks: Set[str] = set()
-        for n in ast.walk(resp.node):
-            if isinstance(n, ast.Assign) and isinstance(n.value, ast.Subscript) and isinstance(n.value.value, ast.Subscript) \
-                    and _is_block_of(n.value, params):
-                for t in n.targets:
-                    if isinstance(t, (ast.Name, ast.Attribute)):
-                        blocks.add(norm(t))
+        blocks = set(_matrix_blocks(resp, params))
         if not blocks:
             continue
         sens = m.resolve_method(c, "_sensitivity")
@@ -283,28 +282,45 @@ def r_gauss_sib(ctx: RuleCtx, col: Collector):
     with the same sampling-point expression; the integrating ones use the same weight; the 2-D thickness scaling of the
     constitutive matrix is applied by all of {stiffness, stress, thermal load} or by none."""
     m = ctx.model
+    from .common import expand_names, untag
     loops = []
     for c in m.module_classes():
         f = c.method("_prepare")
         if f is None:
             continue
         for n in ast.walk(f.node):
-            if isinstance(n, ast.For) and norm(n.iter).endswith(".node_numbering"):
+            if not (isinstance(n, ast.For) and isinstance(n.target, ast.Name)):
+                continue
+            # the sampling points: one per entry of the element's node table, computed in the loop body or beforehand
+            # (points = [<expr of n> for n in domain.node_numbering]; for pos in points)
+            var, posx = None, None
+            if norm(n.iter).endswith(".node_numbering"):
+                var = n.target.id
                 pos = [x for x in n.body if isinstance(x, ast.Assign) and isinstance(x.targets[0], ast.Name)
-                       and any(isinstance(y, ast.Name) and y.id == n.target.id for y in ast.walk(x.value))]
-                # integration weight by role: the leading name factor of the accumulated integrand in the loop body
-                wname = None
-                for x in n.body:
-                    for y in ast.walk(x):
-                        if isinstance(y, (ast.AugAssign, ast.Assign)) and isinstance(y.value, ast.BinOp):
-                            lead = y.value
-                            while isinstance(lead, ast.BinOp) and isinstance(lead.op, (ast.Mult, ast.MatMult)):
-                                lead = lead.left
-                            if isinstance(lead, ast.Name) and lead.id != n.target.id and wname is None:
-                                wname = lead.id
-                w = [x.value for x in ast.walk(f.node) if isinstance(x, ast.Assign) and isinstance(x.targets[0], ast.Name)
-                     and x.targets[0].id == wname and x not in list(ast.walk(n))]
-                loops.append((c, f, n, pos[0].value if pos else None, w[0] if w else None))
+                       and any(isinstance(y, ast.Name) and y.id == var for y in ast.walk(x.value))]
+                posx = pos[0].value if pos else None
+            else:
+                src = expand_names(f.node, n.iter)
+                while isinstance(src, ast.Call) and norm(src.func) in ("list", "tuple", "iter") and len(src.args) == 1:
+                    src = src.args[0]
+                if isinstance(src, (ast.ListComp, ast.GeneratorExp)) and len(src.generators) == 1 and not src.generators[0].ifs \
+                        and isinstance(src.generators[0].target, ast.Name) and norm(src.generators[0].iter).endswith(".node_numbering"):
+                    var, posx = src.generators[0].target.id, src.elt
+                else:
+                    continue
+            # integration weight by role: the leading name factor of the accumulated integrand in the loop body
+            wname = None
+            for x in n.body:
+                for y in ast.walk(x):
+                    if isinstance(y, (ast.AugAssign, ast.Assign)) and isinstance(y.value, ast.BinOp):
+                        lead = y.value
+                        while isinstance(lead, ast.BinOp) and isinstance(lead.op, (ast.Mult, ast.MatMult)):
+                            lead = lead.left
+                        if isinstance(lead, ast.Name) and lead.id not in (n.target.id, var) and wname is None:
+                            wname = lead.id
+            w = [x.value for x in ast.walk(f.node) if isinstance(x, ast.Assign) and isinstance(x.targets[0], ast.Name)
+                 and x.targets[0].id == wname and x not in list(ast.walk(n))]
+            loops.append((c, f, n, posx, w[0] if w else None, var))
     if len(loops) < 4:
         raise AnalysisError(f"only {len(loops)} element-integration loops found")
 
@@ -317,20 +333,19 @@ def r_gauss_sib(ctx: RuleCtx, col: Collector):
                 x.id = "NODE"
         return canon_arith(e2)
     ref = None
-    for c, f, n, pos, w in loops:
+    for c, f, n, pos, w, var in loops:
         if pos is None:
-            col.bad(c.name, f.rel, line_of(n), f"{c.name}: sampling point", "sampling-point expression not found")
-            continue
-        t = canon(pos, n.target.id)
+            raise AnalysisError(f"{c.name}._prepare: sampling-point expression of the loop at line {line_of(n)} not recognised")
+        t = untag(canon(expand_names(f.node, pos), var))
         if ref is None:
             ref = (c, t)
         if t == ref[1]:
-            col.ok(c.name, f.rel, line_of(pos), f"{c.name}: sampling point {U(pos)}", "same rule as the sibling loops")
+            col.ok(c.name, f.rel, line_of(pos), f"{c.name}: sampling point {untag(U(pos))}", "same rule as the sibling loops")
         else:
-            col.bad(c.name, f.rel, line_of(pos), f"{c.name}: sampling point {U(pos)}",
+            col.bad(c.name, f.rel, line_of(pos), f"{c.name}: sampling point {untag(U(pos))}",
                     f"differs from {ref[0].name}'s '{ref[1]}': the element integrals of this class use another quadrature")
     ws = {}
-    for c, f, n, pos, w in loops:
+    for c, f, n, pos, w, var in loops:
         if w is None:
             continue
         t = norm(w)
@@ -348,7 +363,7 @@ def r_gauss_sib(ctx: RuleCtx, col: Collector):
             else:
                 facs.append(e)
         flat(expand_names(f.node, w))
-        geo = sorted(norm(x) for x in facs if any(k in norm(x) for k in ("siz", "element_size")))
+        geo = sorted(untag(norm(x)) for x in facs if any(k in norm(x) for k in ("siz", "element_size")))
         t = "*".join(geo) if geo else t
         ws.setdefault(t, []).append(c.name)
     if len(ws) == 1:
@@ -612,17 +627,29 @@ def r_radix(ctx: RuleCtx, col: Collector):
     du = DefUse(fd.node)
     idx = fd.pos_params()[0]
     decoded = []
-    for name, defs in du.defs.items():
-        for d in defs:
-            t = norm(d)
-            if isinstance(d, ast.BinOp) and isinstance(d.op, ast.Mod) and norm(d.left) == idx:
-                decoded.append((0, norm(d.right), None))
-            elif isinstance(d, ast.BinOp) and isinstance(d.op, ast.Mod) and isinstance(d.left, ast.BinOp) and \
-                    isinstance(d.left.op, ast.FloorDiv) and norm(d.left.left) == idx:
-                decoded.append((1, norm(d.right), norm(d.left.right)))
-            elif isinstance(d, ast.BinOp) and isinstance(d.op, ast.FloorDiv) and norm(d.left) == idx:
-                decoded.append((2, None, norm(d.right)))
-    decoded.sort()
+    # the digit extractions, wherever they are formed (named locals, list entries, arguments), with named radices expanded
+    from .common import expand_names
+    inner = set()
+    for d0 in ast.walk(fd.node):
+        if not (isinstance(d0, ast.BinOp) and isinstance(d0.op, (ast.Mod, ast.FloorDiv))) or id(d0) in inner:
+            continue
+        d = expand_names(fd.node, d0)
+        if isinstance(d.op, ast.Mod) and norm(d.left) == idx:
+            decoded.append((0, norm(d.right), None))
+        elif isinstance(d.op, ast.Mod) and isinstance(d.left, ast.BinOp) and isinstance(d.left.op, ast.FloorDiv) and norm(d.left.left) == idx:
+            decoded.append((1, norm(d.right), norm(d.left.right)))
+            if isinstance(d0.left, ast.BinOp):
+                inner.add(id(d0.left))
+            elif isinstance(d0.left, ast.Name):
+                # the quotient was named: its own definition is part of this digit
+                for x in ast.walk(fd.node):
+                    if isinstance(x, ast.Assign) and isinstance(x.targets[0], ast.Name) and x.targets[0].id == d0.left.id:
+                        inner.add(id(x.value))
+        elif isinstance(d.op, ast.FloorDiv) and norm(d.left) == idx:
+            decoded.append((2, None, norm(d.right)))
+    # a quotient consumed by a later `% radix` was collected before its consumer was seen: drop those
+    decoded = [t for t in decoded if not (t[0] == 2 and any(u[0] == 1 and u[2] == t[2] for u in decoded))] or decoded
+    decoded = sorted(set(decoded), key=lambda t: (t[0], str(t[1]), str(t[2])))
     rad = [_strip_parens(r) for r in hn[1]]
     okd = len(decoded) >= 3 and _strip_parens(decoded[0][1]) == rad[0] and _strip_parens(decoded[1][2]) == rad[0] and \
         _strip_parens(decoded[1][1]) == rad[1] and \
@@ -657,8 +684,7 @@ def r_radix(ctx: RuleCtx, col: Collector):
     for attr, radices, extra in (("nnodes", hn[1], None), ("nel", he[1], None)):
         d = [n.value for n in ast.walk(init.node) if isinstance(n, ast.Assign) and norm(n.targets[0]) == f"{s}.{attr}"]
         if not d:
-            col.bad(where_of(init), init.rel, line_of(init.node), f"{attr} is the product of the radices", "not assigned")
-            continue
+            raise AnalysisError(f"DomainDefinition.__init__: assignment of self.{attr} not found")
         t = norm(d[0])
         if all(_strip_parens(r) in t for r in radices):
             col.ok(where_of(init), init.rel, line_of(d[0]), f"{attr} is the product of the radices", t)
@@ -777,8 +803,7 @@ def r_dir_valid(ctx: RuleCtx, col: Collector):
     asserts = [nd for nd in cfg.simple_nodes() if nd.kind == TEST and isinstance(nd.owner, ast.Assert)]
     dattr = normn[0].ast.targets[0].attr if normn and isinstance(normn[0].ast.targets[0], ast.Attribute) else None
     if not normn or dattr is None:
-        col.bad(where_of(f), f.rel, line_of(f.node), "direction normalised", "normalisation of the print direction not found")
-        return
+        raise AnalysisError("OverhangFilter._prepare: normalisation of the print direction not found")
     if cfg.must_pass(cfg.entry, cfg.exit, normn):
         col.ok(where_of(f), f.rel, line_of(normn[0].ast), "direction normalised", "on every path")
     else:
